@@ -35,7 +35,7 @@ type T2JCase struct {
 
 type descHolder struct {
 	out      *Out
-	quiet    bool                   // do not log the Desc event, keep it in lastEv (the caller logs it)
+	quiet    bool // do not log the Desc event, keep it in lastEv (the caller logs it)
 	lastEv   map[string]interface{}
 	lastDesc string
 	root     *thrift.TypeDescriptor
